@@ -436,13 +436,42 @@ Inductive xstep :=
 | XGm (addr n : N) (chain : list dop) (o : sop)               (* first accessor = gm.get_slice(addr, n) *)
 | XRegion (ri : nat) (o : sop)                                (* Bytes<MemoryRegionAddress> for GuestRegionMmap, mmap/mod.rs:169-300:
                                                                  every method is self.as_volatile_slice().unwrap().<same method>(addr.0 as usize, ..) *)
+| XGuard (ri : nat) (k : rootk) (chain : list dop)             (* QUERY: ptr_guard() / ptr_guard_mut() of the accessor reached from root k by
+                                                                 the chain, taken and dropped.  VolatileSlice::ptr_guard{,_mut} volatile_memory.rs:383-391,
+                                                                 VolatileRef::ptr_guard{,_mut} :917-928, VolatileArrayRef::ptr_guard{,_mut} :1118-1130:
+                                                                 PtrGuard::read / PtrGuardMut::write(self.mmap, self.addr, len) - no store, no mark_dirty;
+                                                                 the count reported is the accessor's len() *)
 | XCopyRoot (ri : nat) (k : rootk) (chain : list dop) (rj : nat) (doff dlen : N).
                                                               (* slice-to-slice copy whose SOURCE chain starts at root k and whose destination
                                                                  is region rj's OWN get_slice(doff, dlen) (MmapRegion::get_slice) *)
 
+(* what len() answers: bytes of a slice, size_of T of a typed reference, ELEMENTS of an array *)
+Definition acc_len (a : acc) : N :=
+  match a_kind a with KArr esz n => if esz =? 1 then a_len a else n | _ => a_len a end.
+(* a read-type operation of the base model that, on accessor a, reports len() and has no effect *)
+Definition guard_read (a : acc) : sop :=
+  match a_kind a with
+  | KSlice => OWriteTo (a_len a) 0
+  | KRef => ORefLoad
+  | KArr _ _ => OArrCopyTo (acc_len a)
+  end.
+
 Definition run_xstep (hostmod : N) (rs : list region) (x : xstep) : list region * outcome1 :=
   match x with
   | XBase s => run_step hostmod rs s
+  | XGuard ri k ch =>
+      match nth_error rs ri with
+      | None => (rs, fail)
+      | Some r =>
+          match root_acc r k with
+          | None => (rs, fail)
+          | Some a0 =>
+              match derive_chain a0 ch with
+              | None => (rs, fail)
+              | Some a => (rs, done (acc_len a) [])
+              end
+          end
+      end
   | XRoot ri k ch o =>
       match nth_error rs ri with
       | None => (rs, fail)
@@ -506,4 +535,13 @@ Definition lower (rs : list region) (x : xstep) : step :=
       end
   | XRegion ri o => SAcc ri [] o
   | XCopyRoot ri k ch rj doff dlen => SCopy ri (root_prefix k ++ ch) rj doff dlen
+  | XGuard ri k ch =>
+      let ds := root_prefix k ++ ch in
+      match nth_error rs ri with
+      | Some r => match derive_chain (root r) ds with
+                  | Some a => SAcc ri ds (guard_read a)
+                  | None => SAcc ri ds ORefLoad
+                  end
+      | None => SAcc ri ds ORefLoad
+      end
   end.
